@@ -3,13 +3,14 @@ package main
 // C04: pkg/readahead ImmediateReadAhead over a scripted io.Reader.
 
 import (
-	"syscall"
 	"encoding/hex"
 	"encoding/json"
 	"errors"
 	"fmt"
 	"io"
+	"os"
 	"strings"
+	"syscall"
 
 	"rare/pkg/readahead"
 	. "verifh/lib"
@@ -20,11 +21,11 @@ type c04Step struct {
 	Kind int `json:"kind"` // 0 nil, 1 io.EOF, 2 injected error
 }
 type c04In struct {
-	Buffered bool      `json:"buffered,omitempty"` // BufferedReadAhead (buf_size = maxBufLen > 1) instead of ImmediateReadAhead
-	NoHandler bool     `json:"no_handler,omitempty"` // no OnError callback is registered (a read error must still end the stream)
-	BufSize  int       `json:"buf_size"`
-	Script   []c04Step `json:"script"`
-	Stream   string    `json:"stream_hex"`
+	Buffered  bool      `json:"buffered,omitempty"`   // BufferedReadAhead (buf_size = maxBufLen > 1) instead of ImmediateReadAhead
+	NoHandler bool      `json:"no_handler,omitempty"` // no OnError callback is registered (a read error must still end the stream)
+	BufSize   int       `json:"buf_size"`
+	Script    []c04Step `json:"script"`
+	Stream    string    `json:"stream_hex"`
 }
 type c04Out struct {
 	Completed bool     `json:"completed"`
@@ -40,7 +41,17 @@ var errInjected = errors.New("injected read error")
 
 // the identity of an injected failure varies (the property speaks of ANY non-EOF read error): chosen
 // by the position of the failure, so a case replays exactly
-var errKinds = []error{errInjected, io.ErrUnexpectedEOF, io.ErrClosedPipe, io.ErrNoProgress, io.ErrShortBuffer, syscall.EIO}
+// It includes failures that merely WRAP or resemble io.EOF (a net.OpError around EOF, a PathError, a
+// distinct error printing "EOF"): io.Reader signals a clean end with io.EOF itself, everything else is a failure
+var errKinds = []error{errInjected, io.ErrUnexpectedEOF, io.ErrClosedPipe, io.ErrNoProgress, io.ErrShortBuffer, syscall.EIO,
+	fmt.Errorf("read tcp 10.0.0.1:514: %w", io.EOF), &os.PathError{Op: "read", Path: "/var/log/app.log", Err: io.EOF}, errors.New("EOF"),
+	fmt.Errorf("gzip: %w", io.ErrUnexpectedEOF), wrappedErr{io.EOF}}
+
+// an error type with Unwrap only (no Is method), around io.EOF
+type wrappedErr struct{ inner error }
+
+func (w wrappedErr) Error() string { return "connection reset: " + w.inner.Error() }
+func (w wrappedErr) Unwrap() error { return w.inner }
 
 type scriptReader struct {
 	script    []c04Step
@@ -258,8 +269,39 @@ func c04Stream(r *Rng, n int) []byte {
 			b[i+1] = '\n'
 		}
 	}
+	// every byte value is content: a sixth of the streams draw some bytes from the whole range ...
+	if r.Chance(1, 6) {
+		for i := range b {
+			if r.Chance(1, 3) {
+				b[i] = byte(r.Intn(256))
+			}
+		}
+	}
+	// ... and a quarter carry a byte sequence that other tools treat as a marker (byte-order marks, gzip
+	// magic, shebang, U+2028) at the very start, at the start of a later line, or at the end
+	if n > 0 && r.Chance(1, 4) {
+		m := Pick(r, c04Magic)
+		at := 0
+		switch r.Intn(4) {
+		case 1:
+			at = n - len(m)
+		case 2:
+			for i := 0; i+1 < n; i++ {
+				if b[i] == '\n' {
+					at = i + 1
+					break
+				}
+			}
+		}
+		if at < 0 {
+			at = 0
+		}
+		copy(b[at:], m) // a marker longer than the stream is cut (a truncated marker is a case too)
+	}
 	return b
 }
+
+var c04Magic = [][]byte{{0xef, 0xbb, 0xbf}, {0xff, 0xfe}, {0xfe, 0xff}, {0x1f, 0x8b, 0x08}, {'#', '!'}, {0xe2, 0x80, 0xa8}, {0xef, 0xbb, 0xbf, '\n'}, {0xef, 0xbb, 0xbf, 0xef, 0xbb, 0xbf}}
 
 func c04Script(r *Rng, stream []byte, bs int) []c04Step {
 	n := len(stream)
